@@ -57,6 +57,13 @@ func runC14(rc *RunCtx) {
 	// accounts: 0 owner, 1 prover P, 2..2+npop-1 other providers, last = non-provider stranger
 	sameDom := rc.Intn(3)                      // providers sharing P's domain (never eligible)
 	npop := int(size) + rc.Intn(int(9-size)+1) // eligible providers
+	// small networks (chosen by case number, the other cases stay what they were): one eligible provider fewer than the form
+	// has slots. Whatever the chain does then - refuse the form, or open a shorter one - a form never names anybody twice and
+	// a quorum is a quorum of distinct named signers
+	if size >= 2 && (rc.Case/len(c14Pairs))%5 == 3 {
+		npop = int(size) - 1
+		rc.Count("networks_smaller_than_the_form", 1)
+	}
 	nacc := 2 + npop + sameDom + 1
 	c, err := chain.New(chain.Config{Seed: rc.Seed, NAcc: nacc, Storage: sp})
 	if err != nil {
